@@ -133,6 +133,9 @@ def exhaustive(rng):
     return out
 
 
+import re
+# a line of the conditional structure itself, however it is spelled (label in front, '#', glued parenthesis)
+STRUCTURAL = re.compile(r"^\s*(\w+:\s*)?[.#](if|ifdef|ifndef|elif|else|endif)\b")
 MACRO_BREAKERS = (".endm", ".macro", ".exit", ".include")
 
 
@@ -142,13 +145,15 @@ def texts_of(lines, wrap=None):
     (a parameter reference @n that the call does not supply is such text)"""
     body = [l for l, _ in lines]
     blanked = [(l if s else "") for l, s in lines]
+    bare = [(l if s and not STRUCTURAL.match(l) else "") for l, s in lines]
     if wrap is not None and not any(b in l for l in body for b in MACRO_BREAKERS):
         call = " tree" + ((" " + ", ".join(wrap)) if wrap else "")
         body = [".macro tree"] + body + [".endm", call]
         blanked = [".macro tree"] + blanked + [".endm", call]
+        bare = [".macro tree"] + bare + [".endm", call]
     full = "\n".join(PRELUDE + body) + "\n"
     blank = "\n".join(PRELUDE + blanked) + "\n"
-    return full, blank
+    return full, blank, "\n".join(PRELUDE + bare) + "\n"
 
 
 def run(res):
@@ -174,29 +179,33 @@ def run(res):
             body = [".ifndef STAGE1", ".define STAGE1", " .dw 1", ".else", ".ifndef STAGE2", ".define STAGE2", " .dw 2", ".else", " .dw 3", ".endif", ".endif"]
             full = ".macro step\n" + "\n".join(body) + "\n.endm\n" + pre + (" step\n" + post) * calls
             hand = pre + "".join(" .dw %d\n" % min(i + 1, 3) + post for i in range(calls))
-            pairs.append((full, hand))
+            pairs.append((full, hand, hand))
             body2 = [".ifdef SEEN", " .db 0xBB, 0xBB", ".else", " .db 0xAA, 0xAA", ".equ first_at = pc", ".define SEEN", ".endif"]
             full2 = ".macro once\n" + "\n".join(body2) + "\n.endm\n" + pre + (" once\n" + post) * calls
             hand2 = pre + "".join((" .db 0xAA, 0xAA\n" if i == 0 else " .db 0xBB, 0xBB\n") + post for i in range(calls))
-            pairs.append((full2, hand2))
+            pairs.append((full2, hand2, hand2))
             # the same with an argument that is not used by the condition
-            pairs.append((full.replace(" step\n", " step 1\n"), hand))
-    obs = P.correspond(res, vh, exe, [p[0] for p in pairs] + [p[1] for p in pairs], "conditional-assembly programs")
+            pairs.append((full.replace(" step\n", " step 1\n"), hand, hand))
+    obs = P.correspond(res, vh, exe, [p[0] for p in pairs] + [p[1] for p in pairs] + [p[2] for p in pairs], "conditional-assembly programs")
     nsel = 0
-    for full, blank in pairs:
-        a, b = obs[full][0], obs[blank][0]
+    for full, blank, bare in pairs:
+        a, b, c = obs[full][0], obs[blank][0], obs[bare][0]
         if a.startswith("OK"):
             nsel += 1
         if a != b:
             P.fail(res, "builder::build_str", full, "the result of the same text with every unselected line blanked: " + b[:200], a[:200], "selection",
                    extra=dict(blanked=blank))
+        elif c.startswith("OK") and a != c:
+            # the lines of the conditional structure themselves contribute nothing either, however they are spelled
+            P.fail(res, "builder::build_str", full, "the result of the selected lines alone (every other line blanked): " + c[:200], a[:200], "selection",
+                   extra=dict(blanked=bare))
     res.extra["distribution"].update(trees=len(trees), exhaustive_chains=len(exhaustive(rng)), builds_ok=nsel)
     res.extra["exhaustive"] = False
     res.rule = ("block trees: bounded-exhaustive (all chains of 1..3 arms, with/without .else, every truth assignment, alone and nested "
                 "inside a taken and an untaken arm) + random trees to depth 3; conditions over literals, .equ constants, .define flags; "
                 "selected arms hold data/symbol/message/label payloads, unselected arms hold payloads or text that is not valid "
                 "assembly (errors, .error, duplicate labels, unterminated strings, .macro, .if without operand); an .elif after a taken "
-                "arm may name an undefined symbol. Oracle: implementation(full text) == implementation(unselected lines blanked)")
+                "arm may name an undefined symbol. Oracle: implementation(full text) == implementation(unselected lines blanked) == implementation(only the selected payload lines)")
     res.samples = [dict(source=pairs[i][0], observation=obs[pairs[i][0]][0][:120]) for i in (0, len(pairs) // 2, len(pairs) - 1)]
     res.assume = ["the truth value of each generated condition is known to the generator (literals, three .equ constants, one define)"]
 
